@@ -1,9 +1,18 @@
-(* C08 - property theorems only (DESIGN.md 6.C08). *)
+(* C08 - property theorems only (DESIGN.md 6.C08).
+   Model and executable statement: Topo/Restrict.v.  Proofs: Topo/RestrictProofs.v.
+   The theorems speak about restrict_prune (argument checks, dropped sets, the
+   recursion restrict_object_by_cpuset/_by_nodeset with removal, ADAPT flags and
+   reordering) for ALL trees, sets and flag words; the KEEP_STRUCTURE level merge
+   and propagate_total_memory that follow (restrict_topo) are modelled and tied to
+   the C code by differential execution, they are outside these theorems except
+   where stated (EINVAL). *)
 From Coq Require Import List NArith ZArith Bool.
 From HV Require Import Base.BSet Gen.Tables Text.TypeOrder Topo.Dump Topo.WFCheck Topo.Obj Topo.Restrict Topo.RestrictProofs.
 Import ListNotations.
 Local Open Scope N_scope.
 
+(* All 32 words over the five flags: valid iff neither BYNODESET+REMOVE_CPULESS nor
+   REMOVE_MEMLESS without BYNODESET (re-proved against the flag values of the current source). *)
 Theorem restrict_flags_valid_32 :
   forallb (fun f => Bool.eqb (flags_valid f)
                       (negb (hasf f HWLOC_RESTRICT_FLAG_BYNODESET && hasf f HWLOC_RESTRICT_FLAG_REMOVE_CPULESS) &&
@@ -11,3 +20,188 @@ Theorem restrict_flags_valid_32 :
           (map N.of_nat (seq 0 32)) = true.
 Proof. exact flags_valid_32. Qed.
 Print Assumptions restrict_flags_valid_32.
+
+Theorem restrict_flags_unknown_bit : forall f, N.ldiff f RESTRICT_ALL <> 0 -> flags_valid f = false.
+Proof. exact flags_valid_unknown_bit. Qed.
+Print Assumptions restrict_flags_unknown_bit.
+
+(* EINVAL exactly when: invalid flag word, S misses the allowed set, or everything of the
+   other resource would be dropped; for every topology, set and flag word (incl. the merge phase). *)
+Theorem restrict_einval_iff : forall filters dm t S flags,
+  restrict_topo filters dm t S flags = Einval <->
+  (flags_valid flags = false \/
+   (hasf flags HWLOC_RESTRICT_FLAG_BYNODESET = true /\
+    (bs_intersects S (tp_anode t) = false \/
+     (hasf flags HWLOC_RESTRICT_FLAG_REMOVE_MEMLESS = true /\ bs_subset (tp_acpu t) (memless_pus (tp_root t) (bs_compl S)) = true))) \/
+   (hasf flags HWLOC_RESTRICT_FLAG_BYNODESET = false /\
+    (bs_intersects S (tp_acpu t) = false \/
+     (hasf flags HWLOC_RESTRICT_FLAG_REMOVE_CPULESS = true /\ bs_subset (tp_anode t) (cpuless_nodes (tp_root t) (bs_compl S)) = true)))).
+Proof. intros. rewrite restrict_topo_einval_iff. apply restrict_params_none_iff. Qed.
+Print Assumptions restrict_einval_iff.
+
+(* "observably unchanged" as evaluated on the C output: a clean einval_identity verdict means the
+   two dumps are equal on every field (the model itself returns no topology on EINVAL). *)
+Theorem restrict_einval_identity : forall before after, einval_identity before after = [] -> before = after.
+Proof. exact einval_identity_sound. Qed.
+Print Assumptions restrict_einval_identity.
+
+(* Root and allowed sets = old ∩ S (by cpuset; nodesets untouched without REMOVE_CPULESS). *)
+Theorem restrict_root_sets : forall t S flags t',
+  restrict_prune t S flags = Done t' -> hasf flags HWLOC_RESTRICT_FLAG_BYNODESET = false ->
+  sets_ok (odata (tp_root t)) ->
+  o_cs (odata (tp_root t')) = ointer (o_cs (odata (tp_root t))) S /\
+  o_ccs (odata (tp_root t')) = ointer (o_ccs (odata (tp_root t))) S /\
+  tp_acpu t' = bs_inter (tp_acpu t) S /\
+  o_gp (odata (tp_root t')) = o_gp (odata (tp_root t)) /\
+  (hasf flags HWLOC_RESTRICT_FLAG_REMOVE_CPULESS = false ->
+   o_nds (odata (tp_root t')) = o_nds (odata (tp_root t)) /\ o_cnds (odata (tp_root t')) = o_cnds (odata (tp_root t)) /\
+   tp_anode t' = tp_anode t).
+Proof. exact prune_root_sets_bycpu. Qed.
+Print Assumptions restrict_root_sets.
+
+Theorem restrict_root_sets_bynodeset : forall t S flags t',
+  restrict_prune t S flags = Done t' -> hasf flags HWLOC_RESTRICT_FLAG_BYNODESET = true ->
+  sets_ok (odata (tp_root t)) ->
+  o_nds (odata (tp_root t')) = ointer (o_nds (odata (tp_root t))) S /\
+  o_cnds (odata (tp_root t')) = ointer (o_cnds (odata (tp_root t))) S /\
+  tp_anode t' = bs_inter (tp_anode t) S /\
+  o_gp (odata (tp_root t')) = o_gp (odata (tp_root t)) /\
+  (hasf flags HWLOC_RESTRICT_FLAG_REMOVE_MEMLESS = false ->
+   o_cs (odata (tp_root t')) = o_cs (odata (tp_root t)) /\ o_ccs (odata (tp_root t')) = o_ccs (odata (tp_root t)) /\
+   tp_acpu t' = tp_acpu t).
+Proof. exact prune_root_sets_bynode. Qed.
+Print Assumptions restrict_root_sets_bynodeset.
+
+(* Every object of the result (normal, memory, I/O, Misc, at any depth) is an old object: same
+   payload (gp_index, type, os_index, attributes ...), its four sets either untouched or cleared by
+   the two guarded andnot blocks.  Whole tree, all parameters, no well-formedness hypothesis. *)
+Theorem restrict_survivors : forall t S flags t',
+  restrict_prune t S flags = Done t' ->
+  exists P, restrict_params t S flags = Some P /\
+            forall q, In q (flatten (tp_root t')) ->
+                      exists q0, In q0 (flatten (tp_root t)) /\
+                                 (odata q = odata q0 \/ odata q = fst (clear_sets P (odata q0))).
+Proof. exact prune_survivors. Qed.
+Print Assumptions restrict_survivors.
+
+(* ... and for an object whose complete sets contain its sets, "cleared" = old minus dropped *)
+Theorem restrict_survivor_sets : forall P d, sets_ok d ->
+  let d' := fst (clear_sets P d) in
+  o_cs d' = osdiff (o_cs d) (rp_dcs P) /\ o_ccs d' = osdiff (o_ccs d) (rp_dcs P) /\
+  o_nds d' = osdiff (o_nds d) (rp_dns P) /\ o_cnds d' = osdiff (o_cnds d) (rp_dns P).
+Proof. exact clear_sets_spec. Qed.
+Print Assumptions restrict_survivor_sets.
+
+(* not proved: injectivity of the survivor map (no object duplicated) and the exact PU list
+   (restrict_pus); both are decided on every C output by restrict_spec_check
+   (gp-index-duplicate-after, pus-not-exactly-old-pus-in-set). *)
+
+(* The removal rule, one object, both flavours, all parameters: the object goes iff no normal and
+   no memory child is left after the recursion, its cleared cpuset (nodeset) is empty, and it is not
+   a NUMA node (PU) unless REMOVE_CPULESS (REMOVE_MEMLESS).  (Whole-tree form: not proved.) *)
+Theorem restrict_removed_iff_partial : forall P d n m i x,
+  fst (fst (robj P (Obj d n m i x))) = None <->
+  (let kn := kept_children P d n in
+   let n1 := if snd (clear_sets P d) && (negb (rp_bynode P) || rp_rm P) then reorder_children (fst (fst kn)) else fst (fst kn) in
+   n1 = [] /\ fst (fst (kept_children P d m)) = [] /\ removal_test P (fst (clear_sets P d)) = true).
+Proof. exact robj_removed_iff. Qed.
+Print Assumptions restrict_removed_iff_partial.
+
+(* Misc and I/O children, one object: a kept object keeps all of them and hands nothing up; a
+   removed one hands them to its parent exactly with the ADAPT flag of their kind, else drops them. *)
+Theorem restrict_special_children_partial : forall P o,
+  (forall o' io mx, robj P o = (Some o', io, mx) ->
+     io = [] /\ mx = [] /\ incl (oich o) (oich o') /\ incl (oxch o) (oxch o')) /\
+  (forall io mx, robj P o = (None, io, mx) ->
+     (rp_io P = false -> io = []) /\ (rp_misc P = false -> mx = []) /\
+     (rp_io P = true -> incl (oich o) io) /\ (rp_misc P = true -> incl (oxch o) mx)).
+Proof. intros P o. split; [exact (robj_special_kept P o)|exact (robj_special_removed P o)]. Qed.
+Print Assumptions restrict_special_children_partial.
+
+(* restrict S then S' = restrict S ∩ S' on the root and allowed cpusets (objects: by correspondence) *)
+Theorem restrict_twice_partial : forall t S S' fl fl' t1 t2 t12,
+  hasf fl HWLOC_RESTRICT_FLAG_BYNODESET = false -> hasf fl' HWLOC_RESTRICT_FLAG_BYNODESET = false ->
+  sets_ok (odata (tp_root t)) ->
+  restrict_prune t S fl = Done t1 -> restrict_prune t1 S' fl' = Done t2 ->
+  restrict_prune t (bs_inter S S') fl = Done t12 ->
+  o_cs (odata (tp_root t2)) = o_cs (odata (tp_root t12)) /\
+  o_ccs (odata (tp_root t2)) = o_ccs (odata (tp_root t12)) /\
+  tp_acpu t2 = tp_acpu t12.
+Proof. exact prune_twice_bycpu. Qed.
+Print Assumptions restrict_twice_partial.
+
+(* Soundness of the executable statement w.r.t. its Prop reading, set clauses. *)
+Theorem spec_check_sets_sound : forall before after S flags o o',
+  check_old_obj before after S flags o = [] -> find_gp after (gpN o) = Some o' ->
+  let dd := spec_dropped before S flags in
+  o_type o' = o_type o /\ o_os o' = o_os o /\
+  o_cs o' = odiff (o_cs o) (fst dd) /\ o_ccs o' = odiff (o_ccs o) (fst dd) /\
+  o_nds o' = odiff (o_nds o) (snd dd) /\ o_cnds o' = odiff (o_cnds o) (snd dd).
+Proof. exact check_old_obj_sets_sound. Qed.
+Print Assumptions spec_check_sets_sound.
+
+Theorem spec_check_root_sound : forall before after S flags r r',
+  check_topology_level before after S flags = [] -> hasf flags HWLOC_RESTRICT_FLAG_BYNODESET = false ->
+  get before 0 = Some r -> get after 0 = Some r' ->
+  o_cs r' = ointer (o_cs r) S /\ o_ccs r' = ointer (o_ccs r) S /\ t_acpu after = ointer (t_acpu before) S.
+Proof. exact check_topology_level_sound_bycpu. Qed.
+Print Assumptions spec_check_root_sound.
+
+(* ---------------- non-vacuity: a concrete tree ----------------
+   Machine{ Package0{NUMA0, PU0{Misc "a"}, PU1, Bridge}, Package1{NUMA1, PU2{Misc "b"}, Bridge{PCI}}, Group{NUMA2 (CPU-less)} } *)
+Definition mkd (id ty os : N) (cs nds : option bset) : dobj :=
+  mkDobj id ty 0%Z os (Some (id + 100)) PNull PNull PNull PNull PNull PNull PNull 0 0 0 0 0 0 None [] [] [] []
+         cs cs nds nds 0 0 (-1)%Z (-1)%Z (-1)%Z (-1)%Z (-1)%Z (-1)%Z (-1)%Z.
+Definition sN (n : N) : option bset := Some (bs_of_N n).
+Definition leaf (d : dobj) : obj := Obj d [] [] [] [].
+Definition ex_tree : obj :=
+  Obj (mkd 0 HWLOC_OBJ_MACHINE 0 (sN 7) (sN 7))
+    [ Obj (mkd 1 HWLOC_OBJ_PACKAGE 0 (sN 3) (sN 1))
+          [ Obj (mkd 3 HWLOC_OBJ_PU 0 (sN 1) (sN 1)) [] [] [] [leaf (mkd 4 HWLOC_OBJ_MISC 0 None None)];
+            leaf (mkd 5 HWLOC_OBJ_PU 1 (sN 2) (sN 1)) ]
+          [ leaf (mkd 2 HWLOC_OBJ_NUMANODE 0 (sN 3) (sN 1)) ]
+          [ leaf (mkd 6 HWLOC_OBJ_BRIDGE 0 None None) ] [];
+      Obj (mkd 7 HWLOC_OBJ_PACKAGE 1 (sN 4) (sN 2))
+          [ Obj (mkd 9 HWLOC_OBJ_PU 2 (sN 4) (sN 2)) [] [] [] [leaf (mkd 10 HWLOC_OBJ_MISC 0 None None)] ]
+          [ leaf (mkd 8 HWLOC_OBJ_NUMANODE 1 (sN 4) (sN 2)) ]
+          [ Obj (mkd 11 HWLOC_OBJ_BRIDGE 0 None None) [] [] [leaf (mkd 12 HWLOC_OBJ_PCI_DEVICE 0 None None)] [] ] [];
+      Obj (mkd 13 HWLOC_OBJ_GROUP 0 (sN 0) (sN 4)) [] [ leaf (mkd 14 HWLOC_OBJ_NUMANODE 2 (sN 0) (sN 4)) ] [] [] ]
+    [] [] [].
+Definition ex_topo : topo := mkTopo ex_tree (bs_of_N 7) (bs_of_N 7).
+Definition ids_of (o : outcome) : list N := match o with Done t => map oid (flatten (tp_root t)) | _ => [] end.
+
+Example ex_sets_ok : sets_ok (odata ex_tree).
+Proof. split; vm_compute; reflexivity. Qed.
+
+(* S = {0,1}, no flag: Package1 loses its PU and the Misc below that PU, but stays with its I/O (NUMA1 is below it); the CPU-less Group stays;
+   hwloc__reorder_children enqueues the two children with an empty cpuset in reverse order (Group before Package1) *)
+Example ex_restrict_noflag :
+  ids_of (restrict_prune ex_topo (bs_of_N 3) 0) = [0; 1; 3; 4; 5; 2; 6; 13; 14; 7; 8; 11; 12].
+Proof. vm_compute. reflexivity. Qed.
+
+(* REMOVE_CPULESS: NUMA1, NUMA2, Package1 and the Group go, and so do the Misc, Bridge and PCI device below them *)
+Example ex_restrict_cpuless :
+  ids_of (restrict_prune ex_topo (bs_of_N 3) HWLOC_RESTRICT_FLAG_REMOVE_CPULESS) = [0; 1; 3; 4; 5; 2; 6].
+Proof. vm_compute. reflexivity. Qed.
+
+(* REMOVE_CPULESS|ADAPT_MISC|ADAPT_IO: Misc 10 and Bridge 11 (with its PCI device 12) are re-attached to the Machine *)
+Example ex_restrict_adapt :
+  match restrict_prune ex_topo (bs_of_N 3) 7 with
+  | Done t => (map oid (oich (tp_root t)), map oid (oxch (tp_root t)), map oid (flatten (tp_root t)),
+               o_nds (odata (tp_root t)), tp_anode t)
+  | _ => ([], [], [], None, bs_empty)
+  end = ([11], [10], [0; 1; 3; 4; 5; 2; 6; 11; 12; 10], sN 1, bs_of_N 1).
+Proof. vm_compute. reflexivity. Qed.
+
+(* EINVAL: S disjoint from the allowed set; REMOVE_CPULESS with BYNODESET; restrict to the CPU-less node only with REMOVE_MEMLESS *)
+Example ex_restrict_einval :
+  restrict_prune ex_topo (bs_of_N 8) 0 = Einval /\ restrict_prune ex_topo (bs_of_N 1) 9 = Einval /\
+  restrict_prune ex_topo (bs_of_N 4) 24 = Einval /\ ids_of (restrict_prune ex_topo (bs_of_N 4) 8) <> [].
+Proof. vm_compute. repeat split; discriminate. Qed.
+
+(* the hypotheses of restrict_twice_partial are met by concrete values *)
+Example ex_restrict_twice :
+  exists t1 t2 t12, restrict_prune ex_topo (bs_of_N 3) 0 = Done t1 /\ restrict_prune t1 (bs_of_N 5) 1 = Done t2 /\
+                    restrict_prune ex_topo (bs_inter (bs_of_N 3) (bs_of_N 5)) 0 = Done t12 /\
+                    o_cs (odata (tp_root t2)) = sN 1.
+Proof. vm_compute. eexists. eexists. eexists. repeat split. Qed.
